@@ -70,7 +70,14 @@ func (d *diffRig) ctx(bs int) *wsync.Context {
 }
 
 // diff runs the real signature + differ.
-func (d *diffRig) diff(bs int, olds [][]byte, nw []byte, pref int64) ([]sop, error) {
+func (d *diffRig) diff(bs int, olds [][]byte, nw []byte, pref int64) (ops []sop, err error) {
+	defer func() {
+		if r := recover(); r != nil {
+			err = fmt.Errorf("PANIC %v", r)
+			// the context's buffer may be in any state now
+			d.ctxs = map[int]*wsync.Context{}
+		}
+	}()
 	ctx := d.ctx(bs)
 	var sig []wsync.BlockHash
 	for i, o := range olds {
@@ -83,8 +90,7 @@ func (d *diffRig) diff(bs int, olds [][]byte, nw []byte, pref int64) ([]sop, err
 		}
 	}
 	lib := wsync.NewBlockLibrary(sig)
-	var ops []sop
-	err := ctx.ComputeDiff(bytes.NewReader(nw), lib, func(op wsync.Operation) error {
+	err = ctx.ComputeDiff(bytes.NewReader(nw), lib, func(op wsync.Operation) error {
 		o := sop{typ: op.Type, f: op.FileIndex, i: op.BlockIndex, span: op.BlockSpan}
 		if op.Type == wsync.OpData {
 			o.data = append([]byte(nil), op.Data...)
@@ -202,7 +208,11 @@ func c11One(env *Env, d *diffRig, m *wvlib.Model, bs int, olds [][]byte, nw []by
 	impl := ""
 	if err != nil {
 		impl = "ERR " + err.Error()
-		env.R.Violate("differ-error", err.Error(), mk())
+		cls := "differ-error"
+		if strings.HasPrefix(err.Error(), "PANIC") {
+			cls = "differ-panic"
+		}
+		env.R.Violate(cls, err.Error(), mk())
 	} else {
 		impl = canonOps(ops)
 		if cls, det := c11Oracle(d, bs, olds, nw, ops); cls != "" {
@@ -353,7 +363,7 @@ func runC11(env *Env) {
 	R.Extra["exhaustive_space"] = fmt.Sprintf("block sizes 1..4; alphabets %v; one old file <= %d x new <= %d; two old files <= %d x new <= %d; three old files <= %d x new <= %d; every preferred index", ks, c.maxOld1, c.maxNew1, c.maxOld2, c.maxNew2, c.maxOld3, c.maxNew3)
 
 	// ---- random large cases
-	nLarge := 27
+	nLarge := 30
 	if env.Thorough() {
 		nLarge = 300
 	}
@@ -362,7 +372,7 @@ func runC11(env *Env) {
 	for i := range seeds {
 		seeds[i] = rng.Next()
 	}
-	shapes := []string{"nomatch", "allmatch", "shifted", "mixed", "lowentropy", "exact4m", "tailblock", "midsize", "match-then-4m"}
+	shapes := []string{"nomatch", "allmatch", "shifted", "mixed", "lowentropy", "exact4m", "tailblock", "midsize", "match-then-4m", "wrap-at-eof"}
 	wvlib.ParallelDo(nLarge, env.Workers, func(i int) {
 		m := <-models
 		d := <-rigs
@@ -477,6 +487,22 @@ func c11Expand(g *C11Gen) (bs int, olds [][]byte, nw []byte, pref int64) {
 		}
 	case "lowentropy":
 		nw = r.SmallAlpha(big, 2)
+	case "wrap-at-eof":
+		// the input ends exactly where the buffer is wrapped (its length is a multiple of the buffer size), with the
+		// last position not a match: for block size 1 nothing is carried over the wrap and the window is then empty
+		bs = r.Pick(1, 1, 1, 2, 3)
+		olds = [][]byte{{1, 2, 3, 4, 5}, {}}
+		pref = int64(r.Intn(3)) - 1
+		nw = r.Bytes((M + 2*bs) * r.Pick(1, 1, 2))
+		for i := range nw {
+			if nw[i] >= 1 && nw[i] <= 5 && i%3 != 0 {
+				nw[i] = 77 // few matches: keep the op list short
+			}
+		}
+		nw[len(nw)-1] = 0xFF
+		if r.Intn(4) == 0 {
+			nw[len(nw)-1] = 3 // control: the last position is a match
+		}
 	case "match-then-4m":
 		// a short fresh header, k kept blocks, then a fresh tail just above the data-op limit: at the end of the
 		// input a block range is still held back while more than MaxDataOp of literal data follows it
